@@ -374,6 +374,12 @@ func checkSensitivity(l *optsLine, a *Acc) {
 			setAll(flipped(l.Init.O, reg))
 			got := runProbe(op)
 			setAll(l.Init.O)
+			// every register is back at its default (set through the public setters): otherwise that is the finding, and what
+			// the probes show afterwards means nothing
+			if d := diffState(&l.Init); d != "" {
+				a.Mis("opts:restore:"+reg, fmt.Sprintf("register %s changed alone and all options set back to their defaults through the public setters: %s", reg, d), l)
+				return
+			}
 			changed := got != base
 			if changed && !isRel[reg] {
 				a.Mis("opts:leak-single:"+op+":"+reg, fmt.Sprintf("register %s alone changes operation %s, which the specification says is independent of it:\n%s\n--- default:\n%s", reg, op, short(got), short(base)), l)
@@ -525,7 +531,7 @@ const mxjProbeSeqDoc = `<p:A z-z="1&amp;"><!--c--><B-c> v </B-c><d>&lt;7</d><_e>
 
 func mxjProbeMap() mxj.Map {
 	return mxj.Map{"doc": map[string]interface{}{"-x": "1", "@y": "2", "#text": "t<", "_text": "u",
-		"e": []interface{}{"a", "", map[string]interface{}{"-k": "v"}}, "g": map[string]interface{}{}, "E": "w", "-X": "3"}}
+		"e": []interface{}{"a", "", map[string]interface{}{"-k": "v"}}, "g": map[string]interface{}{}, "E": "w", "-X": "3", "__n": 7.0}}
 }
 func mxjLeafMap() mxj.Map {
 	return mxj.Map{"doc": map[string]interface{}{"-x": "1", "@y": "2", "#text": "t", "_text": "u",
